@@ -173,9 +173,19 @@ func (s *SSD) OnSurvey(surveyType string, payload []byte) ([]byte, bool) {
 	return b, true
 }
 
+// maxLookupCapacity is the largest result buffer allocated upfront for a lookup.
+const maxLookupCapacity = 1024
+
 // Lookup performs a against the storage.
 func (s *SSD) lookup(q lookupQuery) (matches message.Frame) {
-	matches = make(message.Frame, 0, q.Limit)
+	// The limit comes from the client, do not size the buffer with it blindly
+	capacity := q.Limit
+	if capacity < 0 {
+		capacity = 0
+	} else if capacity > maxLookupCapacity {
+		capacity = maxLookupCapacity
+	}
+	matches = make(message.Frame, 0, capacity)
 	if err := s.db.View(func(tx *badger.Txn) error {
 		it := tx.NewIterator(badger.IteratorOptions{
 			PrefetchValues: false,
